@@ -1,6 +1,7 @@
 package sim
 
 import (
+	"runtime"
 	"context"
 	"crypto/sha256"
 	"encoding/binary"
@@ -137,6 +138,10 @@ func (c *Chain) Restart() error {
 		c.App.EthClient.(interface{ Close() }).Close()
 	}
 	c.App = nil
+	// a restarted process starts with empty pools: two collections empty every sync.Pool (primary and victim cache), so that
+	// state kept in pooled buffers does not survive the restart here either
+	runtime.GC()
+	runtime.GC()
 	if err := c.open(); err != nil {
 		return err
 	}
